@@ -23,6 +23,7 @@ import PFV.Api
 import PFV.Reach
 import PFV.Front
 import PFV.Proofs.HeapFacts
+import PFV.Proofs.ObjFacts
 namespace PFV
 open Ref (RKind RState RMemo)
 
@@ -1278,6 +1279,33 @@ example : kidsOf (run [.push [], .dup, .mutate 0 [0]]).h 0 = [0] := by decide
 /-- the translated list of in-place mutation sites: every receiver is a stack cell -/
 theorem mutation_sites_on_stack_cells :
     ∀ s ∈ Gen.mutationSites, s.2 = "peek" ∨ s.2 = "pop" := by decide
+
+/-! #### C14 on the opcode-level object model (`Obj.lean`: which cell every arm of `process_stack_ops`
+allocates, aliases, mutates in place or drops — compared with the implementation's live object graph, cell by
+cell and reference count by reference count, after every opcode of real runs: stream S10) -/
+
+/-- every run of the object-level model — any opcodes, guarded or not, any arguments — is a program of the
+stack machine above (the object model performs only the five shapes of heap traffic) -/
+theorem obj_run_is_machine_program (ver : Nat) (is : List Instr) :
+    ∃ steps, Obj.toM (Obj.run ver is) = Heap.run steps := Obj.toM_run ver is
+
+/-- **C14 (opcode level).**  Whatever opcodes the generator processed, with whatever arguments (unsafe
+mutations included), once `State::reset` / `Drop` has cleared the memo and the stack and emptied the cells
+`Stack::push` created, no set of cells keeps itself alive: reference counting frees every cell. -/
+theorem obj_all_reclaimed (ver : Nat) (is : List Instr) (S : List Nat) (hne : S ≠ [])
+    (hall : ∀ c ∈ S, ∃ c' ∈ S, c ∈ Obj.kidsOf (Obj.release (Obj.run ver is)) c') : False :=
+  Obj.run_reclaimed ver is S hne hall
+
+/-- every cell on the simulated stack was created by `Stack::push` (so `reset` / `Drop` know it) -/
+theorem obj_stack_cells_registered (ver : Nat) (is : List Instr) :
+    ∀ c ∈ (Obj.run ver is).stack, ∃ x, (Obj.run ver is).cells[c]? = some x ∧ x.arena = true :=
+  Obj.run_stack_arena ver is
+
+/-- non-vacuity: `EMPTY_LIST DUP APPEND` really makes the list its own child in the object model (the leak of
+the pre-repair tree), `EMPTY_LIST DUP TUPLE1 APPEND POP` an unreachable two-cell ring; both are emptied by release -/
+example : Obj.kidsOf (Obj.run 2 [⟨.emptyList, .none⟩, ⟨.dup, .none⟩, ⟨.append, .none⟩]) 0 = [0] := by decide
+example : let s := Obj.run 2 [⟨.emptyList, .none⟩, ⟨.dup, .none⟩, ⟨.tuple1, .none⟩, ⟨.append, .none⟩, ⟨.pop, .none⟩]
+    s.stack = [] ∧ Obj.kidsOf s 0 = [1] ∧ Obj.kidsOf s 1 = [0] ∧ Obj.kidsOf (Obj.release s) 0 = [] := by decide
 
 end C14
 end PFV
